@@ -108,3 +108,11 @@ Example C11_generated_groups_nonvacuous :
   | Some w => w_gt w = [None; Some 0; Some 1; Some 0]%nat /\ w_started w = [3; 0; 2]%nat /\ w_cur w = 0%nat
   | None => False end.
 Proof. vm_compute. repeat split; reflexivity. Qed.
+(* ... so the group table of ANY scenario script is one the theorems above apply to: from the world as World.__init__ makes it,
+   every well-nested script of group blocks and simulator starts ends in a well-formed table (the root is group 0, every
+   parent is older), back in the root group, with every started simulator in a group that exists *)
+Theorem C11_generated_scripts_build_well_formed_tables : forall ops, nested ops -> exists w',
+  grun (mkW [None] 0%nat [] []) ops = Some w' /\ wfGb (w_gt w') = true /\ w_cur w' = 0%nat /\
+  forall g, In g (w_started w') -> (g < length (w_gt w'))%nat.
+Proof. exact scripts_build_well_formed_tables. Qed.
+Print Assumptions C11_generated_scripts_build_well_formed_tables.
